@@ -74,6 +74,29 @@ def run(chk: core.Check, tier: str, seed: int) -> None:
     bl = [("bl", ["L"], "L")]
     bl_env = probes.make_env(jp, bl, [])
     recs += [impl.rec_compile(jp, q, env=bl_env, extra={"reg": probes.reg_records(bl)}) for q in corpus.logical_param_skeletons(rng)]
+    # one long-lived environment whose configuration changes between compiles of the SAME texts: what was
+    # decided for a text under an earlier configuration must not be remembered
+    texts = ["$[?f(@.a)]", "$[?f(@.*)]", "$[?f(@.a) == 1]", "$[?count(f(@.*)) > 0]", "$[5]", "$[-5:]", "$[?@[4] == 1]", "$[?g(@.a)]"]
+    lived = probes.make_env(jp, [], [])
+    stages = [([("f", ["V"], "L")], None, None), ([("f", ["N"], "N")], None, None), ([("f", ["V"], "V")], None, None),
+              ([("f", ["V"], "L"), ("g", ["V"], "L")], -3, 3), ([("g", ["N"], "L")], -10, 10), ([("f", ["L"], "L")], None, None)]
+    for sigs_now, lo, hi in stages:
+        for name in ("f", "g"):
+            lived.function_extensions.pop(name, None)
+        helper = probes.make_env(jp, sigs_now, [])
+        for name, _p, _r in sigs_now:
+            lived.function_extensions[name] = helper.function_extensions[name]
+        for attr, val in (("min_int_index", lo), ("max_int_index", hi)):
+            if val is None:
+                lived.__dict__.pop(attr, None)
+            else:
+                setattr(lived, attr, val)          # narrowed on the INSTANCE
+        extra = {"reg": probes.reg_records(sigs_now)}
+        if lo is not None:
+            extra.update({"lo": probes.int_lit(lo), "hi": probes.int_lit(hi)})
+        for _ in range(2):
+            for q in texts:
+                recs.append(impl.rec_compile(jp, q, env=lived, extra=extra))
     n_typing = len(recs)
     # integer range
     for lo, hi in [(-(2**53) + 1, 2**53 - 1), (-10, 10), (0, 3), (-2**31, 2**31), (-(10**20), 10**20)]:
